@@ -165,6 +165,8 @@ class Models:
         'LevelFilter': {'Off': 0, 'Error': 1, 'Warn': 2, 'Info': 3, 'Debug': 4, 'Trace': 5},
         # oci_spec::image::MediaType (external): only the open variant is constructed by the crate
         'MediaType': {'Other': 15},
+        # chrono::SecondsFormat (external)
+        'SecondsFormat': {'Secs': 0, 'Millis': 1, 'Micros': 2, 'Nanos': 3, 'AutoSi': 4},
     }
 
     def adt(self, path, ops):
@@ -1866,6 +1868,15 @@ class Models:
         toks[tok] = dt
         return RString(tok)
 
+    def m_DateTime__to_rfc3339_opts(self, c, dt, secform, use_z):
+        # an instant is an integer number of nanoseconds; a coarser seconds format truncates it
+        dt = deref(dt)
+        unit = {0: 10 ** 9, 1: 10 ** 6, 2: 10 ** 3, 3: 1, 4: 1}[deref(secform).discr]
+        if unit != 1:
+            t = dt.f[0]
+            dt = Agg([(t / unit) * unit if not isinstance(t, int) else (t // unit) * unit], 'DateTime')
+        return self.m_DateTime__to_rfc3339(c, dt)
+
     def m_DateTime__parse_from_rfc3339(self, c, s):
         s = deref(s)
         s = s.s if isinstance(s, RString) else s
@@ -2824,18 +2835,25 @@ def approximate_float_i64(val, max_error=Fraction(10) ** -19, max_iterations=30)
 
 
 def _approx_unsigned(val, max_error, max_iterations, t_max):
-    # Continued fractions algorithm (http://mathforum.org/dr.math/faq/faq.fractions.html#decfrac), as in num-rational
-    if val < 0:
+    # Continued fractions algorithm as in num-rational 0.4 `approximate_float_unsigned`, in binary64 arithmetic like the
+    # original (python floats are IEEE doubles): q, f and 1/f are rounded at every step, which is what lets 1/3, 7/60, ...
+    # terminate at the small fraction
+    import math
+    val = float(val)
+    max_error = float(max_error)
+    if val < 0 or val != val:
         return None
     q = val
     n0, d0, n1, d1 = 0, 1, 1, 0
-    t_max_f = Fraction(t_max)
-    if not (q <= t_max_f):
+    t_max_f = float(t_max)
+    eps = 1.0 / t_max_f
+    if q > t_max_f:
         return None
-    eps = 1 / t_max_f
     for _ in range(max_iterations):
-        a = int(q)  # floor for non-negative
-        a_f = Fraction(a)
+        if not (-9.223372036854775808e18 <= q < 9.223372036854775808e18):
+            break
+        a = int(q)           # NumCast f64 -> i64 truncates
+        a_f = float(a)
         f = q - a_f
         # Prevent overflow
         if a != 0 and (n1 > t_max // a or d1 > t_max // a or a * n1 > t_max - n0 or a * d1 > t_max - d0):
@@ -2844,19 +2862,21 @@ def _approx_unsigned(val, max_error, max_iterations, t_max):
         d = a * d1 + d0
         n0, d0 = n1, d1
         n1, d1 = n, d
-        # Simplify fraction
-        import math
         g = math.gcd(n1, d1)
         if g != 0:
             n1 //= g
             d1 //= g
         # Close enough?
-        if abs(Fraction(n, d) - val) < max_error:
+        if d == 0:
+            n_over_d = math.inf if n > 0 else math.nan
+        else:
+            n_over_d = float(n) / float(d)
+        if abs(n_over_d - val) < max_error:
             break
         # Prevent division by ~0
         if f < eps:
             break
-        q = 1 / f
+        q = 1.0 / f
     if d1 == 0:
         return None
     return Fraction(n1, d1)
